@@ -602,5 +602,70 @@ package iavl
 //@   let ukey = ord(iter.unsavedFastNodesToSort[iter.nextUnsavedNodeIdx])
 //@   ensures [tie] old(both && !removed && itkey[iter.fastIterator] == ukey) ==> iter.nextUnsavedNodeIdx == old(iter.nextUnsavedNodeIdx) + 1
 //@   ensures [unsavedfirst] old(both && !removed && ((iter.ascending && itkey[iter.fastIterator] > ukey) || (!iter.ascending && itkey[iter.fastIterator] < ukey))) ==> iter.nextUnsavedNodeIdx == old(iter.nextUnsavedNodeIdx) + 1
-//@   ensures [diskfirst] old(both && !removed && ((iter.ascending && itkey[iter.fastIterator] < ukey) || (!iter.ascending && itkey[iter.fastIterator] > ukey))) ==> iter.nextUnsavedNodeIdx == old(iter.nextUnsavedNodeIdx) && ord(iter.nextKey) == old(itkey[iter.fastIterator])
+//@   ensures [diskfirst] old(both && !removed && ((iter.ascending && itkey[iter.fastIterator] < ukey) || (!iter.ascending && itkey[iter.fastIterator] > ukey))) ==> iter.nextUnsavedNodeIdx == old(iter.nextUnsavedNodeIdx) && ord(iter.nextKey) == old(itkey[iter.fastIterator]) && ord(iter.nextVal) == old(itval[iter.fastIterator])
+//@   ensures [diskonly] old(itvalid[iter.fastIterator] && !(iter.nextUnsavedNodeIdx < len(iter.unsavedFastNodesToSort)) && !removed) ==> iter.nextUnsavedNodeIdx == old(iter.nextUnsavedNodeIdx) && ord(iter.nextKey) == old(itkey[iter.fastIterator]) && ord(iter.nextVal) == old(itval[iter.fastIterator])
+//@   ensures [unsavedonly] old(!itvalid[iter.fastIterator] && iter.nextUnsavedNodeIdx < len(iter.unsavedFastNodesToSort)) ==> iter.nextUnsavedNodeIdx == old(iter.nextUnsavedNodeIdx) + 1
+//@   ensures [end] old(!itvalid[iter.fastIterator] && !(iter.nextUnsavedNodeIdx < len(iter.unsavedFastNodesToSort))) ==> iter.nextKey == nil && iter.nextVal == nil && iter.nextUnsavedNodeIdx == old(iter.nextUnsavedNodeIdx)
+//@   ensures [idxbound] iter.nextUnsavedNodeIdx <= len(iter.unsavedFastNodesToSort) || iter.nextUnsavedNodeIdx == old(iter.nextUnsavedNodeIdx)
+//@   modifies *
+
+// ---------------------------------------------------------------- fast-index lookups (C07): the version guard
+//
+// fihas/fiver/fival[ndb] is the persisted fast index (presence, version last
+// updated, value) as GetFastNode reports it.  What the index is known to
+// satisfy with respect to a tree of version v is stated as preconditions of the
+// readers (for the key asked): an entry last updated at or before v carries
+// v's value; and when v is the latest version an absent entry means an absent
+// key.  Under exactly these two facts every answer of Get equals the tree walk.
+
+//@ func (*nodeDB).GetFastNode(ndb, key) (res, err)
+//@   assumed index boundary: decoding of f<key> entries and the fast-node cache are below this contract
+//@   requires ndb != nil
+//@   ensures err == nil && res == nil ==> !fihas[ndb][ord(key)]
+//@   ensures err == nil && res != nil ==> fihas[ndb][ord(key)] && res.versionLastUpdatedAt == fiver[ndb][ord(key)] && res.value != nil && cntOf(res.value) == fival[ndb][ord(key)]
+//@   ensures nframe(old(heap(N)), heap(N), old(na))
+//@   modifies nodeDB.mtx[*], Statistics.*[*]
+//@   allocates fastnode.Node BM
+
+//@ func (*ImmutableTree).Get(t, key) (value, err)
+//@   props C07
+//@   requires t != nil && (t.root != nil ==> t.ndb != nil && valid(t.root) && siz(view(t.root)) <= 144115188075855872)
+//@   requires t.root != nil && fihas[t.ndb][ord(key)] && fiver[t.ndb][ord(key)] <= t.version ==> has(tview(t.root), ord(key)) && lookup(tview(t.root), ord(key)) == fival[t.ndb][ord(key)]
+//@   requires t.root != nil && t.version == t.ndb.latestVersion && !fihas[t.ndb][ord(key)] ==> !has(tview(t.root), ord(key))
+//@   ensures [present] err == nil ==> (value != nil) == has(old(tview(t.root)), ord(key))
+//@   ensures [value] err == nil && value != nil ==> cntOf(value) == lookup(old(tview(t.root)), ord(key))
+//@   modifies nodeDB.*[*], Statistics.*[*]
+
+// ---------------------------------------------------------------- iterator.go (C08): one step of the range-pruned tree walk (pre-order mode, as used by Iterator)
+//
+// The stack holds subtrees still to be walked, top = next.  A step pops the
+// top; a leaf is returned exactly when its key lies in the domain; an inner
+// node is returned after its children have been pushed, and a child may be
+// left out only when the search-tree order shows that its whole subtree lies
+// outside the domain; in ascending order the left child ends up on top, in
+// descending order the right one.
+//@ func (*traversal).next(t) (res, err)
+//@   props C08
+//@   requires t != nil && t.delayedNodes != nil && t.tree != nil && t.tree.ndb != nil && !t.post
+//@   requires all(*t.delayedNodes, e, e.delayed && (e.node != nil ==> allocated(e.node) && valid(e.node) && bstT(view(e.node))))
+//@   let n0 = len(*t.delayedNodes)
+//@   let top = (*t.delayedNodes)[len(*t.delayedNodes) - 1]
+//@   let topInner = len(*t.delayedNodes) > 0 && top.node != nil && top.node.subtreeHeight != 0
+//@   ensures [empty] old(n0) == 0 ==> res == nil && err == nil
+//@   ensures [leafhit] old(n0 > 0 && top.node != nil && top.node.subtreeHeight == 0 && inR(ord(top.node.key), t.start != nil, ord(t.start), t.end != nil, ord(t.end), t.inclusive)) ==> res == old(top.node) && err == nil && len(*t.delayedNodes) == old(n0) - 1
+//@   ensures [inrange] err == nil && res != nil && res.subtreeHeight == 0 ==> inR(ord(res.key), t.start != nil, ord(t.start), t.end != nil, ord(t.end), t.inclusive)
+//@   ensures [inner] old(topInner) && err == nil ==> res == old(top.node) && len(*t.delayedNodes) >= old(n0) - 1 && len(*t.delayedNodes) <= old(n0) + 1
+//@   let leafHit = len(*t.delayedNodes) > 0 && top.node != nil && top.node.subtreeHeight == 0 && inR(ord(top.node.key), t.start != nil, ord(t.start), t.end != nil, ord(t.end), t.inclusive)
+//@   let lv = i_left(view(top.node))
+//@   let rv = i_right(view(top.node))
+//@   macro leftOn = (len(*t.delayedNodes) > old(n0) - 1 && (*t.delayedNodes)[old(n0) - 1].node != nil && view((*t.delayedNodes)[old(n0) - 1].node) == old(lv)) || (len(*t.delayedNodes) > old(n0) && (*t.delayedNodes)[old(n0)].node != nil && view((*t.delayedNodes)[old(n0)].node) == old(lv))
+//@   macro rightOn = (len(*t.delayedNodes) > old(n0) - 1 && (*t.delayedNodes)[old(n0) - 1].node != nil && view((*t.delayedNodes)[old(n0) - 1].node) == old(rv)) || (len(*t.delayedNodes) > old(n0) && (*t.delayedNodes)[old(n0)].node != nil && view((*t.delayedNodes)[old(n0)].node) == old(rv))
+//@   ensures [keep] err == nil && old(topInner || leafHit) ==> forall(i, imp(0 <= i && i < old(n0) - 1, (*t.delayedNodes)[i] == old((*t.delayedNodes)[i])))
+//@   ensures [skipleft] old(topInner) && err == nil && !leftOn ==> t.start != nil && maxk(old(lv)) < ord(t.start)
+//@   ensures [skipright] old(topInner) && err == nil && !rightOn ==> t.end != nil && ite(t.inclusive, mink(old(rv)) > ord(t.end), mink(old(rv)) >= ord(t.end))
+//@   ensures [order] old(topInner) && err == nil && len(*t.delayedNodes) == old(n0) + 1 ==> view((*t.delayedNodes)[old(n0)].node) == ite(t.ascending, old(lv), old(rv)) && view((*t.delayedNodes)[old(n0) - 1].node) == ite(t.ascending, old(rv), old(lv))
+//@   lemma [stackinv-leaf] err == nil && old(!topInner) ==> all(*t.delayedNodes, e, e.delayed && (e.node != nil ==> allocated(e.node) && valid(e.node) && bstT(view(e.node))))
+//@   lemma [stackinv-asc] err == nil && old(topInner) && t.ascending ==> all(*t.delayedNodes, e, e.delayed && (e.node != nil ==> allocated(e.node) && valid(e.node) && bstT(view(e.node))))
+//@   lemma [stackinv-desc] err == nil && old(topInner) && !t.ascending ==> all(*t.delayedNodes, e, e.delayed && (e.node != nil ==> allocated(e.node) && valid(e.node) && bstT(view(e.node))))
+//@   ensures [stackinv] err == nil ==> all(*t.delayedNodes, e, e.delayed && (e.node != nil ==> allocated(e.node) && valid(e.node) && bstT(view(e.node))))
 //@   modifies *
